@@ -19,33 +19,38 @@ LEVEL = "proof"
 MANIFEST_ENTRY = {
     "category": "proof",
     "text": "Lean 4 theorems over an executable model of DirectPtychography.reconstruct's streaming skeleton "
-            "(per-pixel Fourier factors as parameters; batched first pass, power accumulation, obf/mf normalisation, "
-            "second pass, real/W, sum): the corrected stack is the same for every partition of the BF pixels into batches "
-            "in any order (all five kernels, both passes; over any carrier whose + is a commutative monoid), it is linear in "
-            "the virtual-BF stack, single-pass reconstructions of disjoint sub-masks recombine with their aperture weights, "
-            "the sub-mask -> stack-row index mapping is correct, the alias table is total on its keys and rejects every other "
-            "name, and the parallax operator is the Fourier translation by grad/2pi (zero-aberration and shifted limits). "
-            "Tied to the code on every run by a Float correspondence (factors captured from single-pixel calls of the real "
-            "kernel method; real reconstruct(max_batch_size=b) for EVERY b in 1..num_bf vs the driver) and by the property "
-            "predicates evaluated on the real code.",
-    "note": "Partial: the ssb/obf/mf kernel formula (gamma_factor, aperture) is a parameter, not re-derived; the FFT pair is a "
-            "parameter of the model (linearity / inversion are hypotheses of linear_in_stack and the parallax limits; the "
-            "executable instance is the defining DFT sum and is measured against torch.fft); float32 summation order is "
-            "measured (batch-invariance tolerance 2e-6 relative), not proved.",
-    "technique": "Lean 4 proof (induction over batch lists / permutations) + model-vs-implementation correspondence",
+            "(per-pixel Fourier factors as parameters; _preprocess, Fourier tiling, batched first pass, power accumulation, "
+            "obf/mf normalisation, second pass, real/W, sum): batch_invariant / batch_size_invariant (any partition of the BF "
+            "pixels into batches, any order, all five kernels, both passes; over any carrier whose + is a commutative monoid), "
+            "linear_in_stack (+ linear_in_stack_dft: unconditional for the defining DFT sums), submask_recombine (single-pass "
+            "kernels, aperture weights), mapping_correct / mapping_in_range (sub-mask -> stack rows), alias table total and "
+            "unknown names rejected, prlx_operator_is_translation (exp(-i grad.q) is the Fourier translation by grad/2pi) and "
+            "the two parallax limits per pixel given the DFT identities. Tied to the code on every run by a Float "
+            "correspondence (factors captured from single-pixel calls of the real kernel method made by the real reconstruct; "
+            "real reconstruct(max_batch_size=b) for EVERY b in 1..num_bf vs the driver) and by the property predicates "
+            "(batch invariance, linearity, recombination, parallax limits vs a NumPy roll oracle and the driver's closed "
+            "form, aliases, determinism) evaluated on the real code.",
+    "note": "Partial: the ssb/obf/mf kernel formula (gamma_factor, aperture) is a parameter, not re-derived; the parallax limits "
+            "are proved per pixel under two DFT identities taken as hypotheses on the FFT pair (DC bin = N*mean and tiled "
+            "spectrum = zero-interleaved image; ifft2 after fft2 = id) - the full closed forms are measured against the real "
+            "code on every run; float32 summation order is measured (batch-invariance tolerance 1e-5 relative, times the "
+            "parallax phase conditioning), not proved.",
+    "technique": "Lean 4 proof (induction over batch lists / permutations, pointwise linear algebra on lists over R) + "
+                 "model-vs-implementation correspondence",
 }
 RULE = ("one case = one synthetic problem (detector grid, construction mask, sub-mask, scan shape, sampling, energy, aperture, "
         "aberrations, rotation, kernel alias, upsampling, filters, stack) evaluated for every batch size; distinct non-trivial = "
         "distinct (kernel, upsampling, num_bf, scan shape parity/squareness, sub-mask?, aberration kind, rotation?, filters?, crop?) "
         "with num_bf >= 2")
-TRUSTED = ["torch.fft.fft2/ifft2 compute the defining DFT sums (the model's executable Fourier instance); measured by every Float stream",
+TRUSTED = ["torch.fft.fft2/ifft2 compute the defining DFT sums (the model's executable Fourier instance, proved linear); measured by every Float stream",
            "ssb/obf/mf kernel factors (gamma_factor, aperture, evaluate_probe) are captured from the real code, not modelled",
-           "the Butterworth envelope is recomputed from its formula in float64 by the harness (independent of reconstruct's local variable)"]
+           "the Butterworth envelope is recomputed from its formula in float64 by the harness (independent of reconstruct's local variable)",
+           "Python str.lower() vs ASCII lowering in the model: no alias contains a letter that a non-ASCII character lowers to"]
 ASSUMPTIONS = ["sub-masks are subsets of the construction mask (the property's quantifier); batch indices are in range",
                "for upsampling u>1 the parallax closed form places the scan images on every u-th point of the finer grid "
                "(what Fourier tiling means in real space); for u=1 it is literally the statement",
                "crop_bf_mask=True is exercised only with masks symmetric about the origin (the crop is owned by direct_ptycho_utils)",
-               "float tolerance: |impl-model| <= 2e-5*max|model| (float32/complex64 path; stricter than the DESIGN rule 5e-4)"]
+               "float tolerance: |impl-model| <= 5e-5*max(max|model|, 1e-3*natural magnitude = max|v-mean|/W) (float32/complex64 path; stricter than the DESIGN rule 5e-4), batch invariance 1e-5, each times the parallax phase conditioning max(1,|phase|/4)"]
 EXPLANATION = ("Theorems in Props/C04.lean are about Model/DirectPtycho.lean; every run captures the per-pixel factors from the real "
                "kernel method, runs the Lean driver on them and compares with the real reconstruct for every batch size.")
 
@@ -58,9 +63,10 @@ ALIASES = {
     "icom": ["icom", "center-of-mass"],
 }
 SINGLE_PASS = ("ssb", "prlx", "icom")
-TOL_CORR = 2e-5      # model(Float64) vs implementation (float32 path), relative to max|model|
-TOL_BATCH = 2e-6     # implementation vs implementation across batch sizes
-TOL_LIN = 2e-5       # linearity / recombination / closed forms (float32 path)
+TOL_CORR = 5e-5      # model(Float64) vs implementation (float32 path), relative to max|model|
+TOL_BATCH = 1e-5     # implementation vs implementation across batch sizes: eps32 (6e-8) x sqrt(Npx <= 729) x small constant;
+                     # measured max 2.5e-6 over 250 thorough problems
+TOL_LIN = 5e-5       # linearity / recombination / closed forms (float32 path)
 
 
 # ---------------------------------------------------------------------------------------
@@ -289,9 +295,10 @@ def maxabs(a):
     return float(np.abs(a).max()) if a.size else 0.0
 
 
-def close(impl, ref, tol):
-    """returns (ok, err/scale)"""
-    scale = max(maxabs(ref), 1e-30)
+def close(impl, ref, tol, floor=0.0):
+    """returns (ok, err/scale); `floor` bounds the scale from below (results that are exactly zero in exact
+    arithmetic come out as float32 noise of the order eps32 x the natural magnitude of the output)"""
+    scale = max(maxabs(ref), floor, 1e-30)
     err = maxabs(np.asarray(impl) - np.asarray(ref))
     if not np.all(np.isfinite(impl)) or not np.all(np.isfinite(ref)):
         return False, float("inf")
@@ -375,6 +382,11 @@ def run_problem(ctx, drv, case):
         ctx.disagree("grid", case, [N, M], list(qxa.shape), note="upsampled grid shape")
         return
 
+    # natural magnitude of one corrected image: deviation of the virtual images from their mean, over W
+    dev = stack[sub].astype(np.float64) - stack[sub].astype(np.float64).mean(axis=(1, 2), keepdims=True)
+    nat = maxabs(dev) / max(W, 1e-30)
+    floor = 1e-3 * nat
+
     # ---- q-grid stream: model `qGrid` vs the grid the real code hands to the kernel method ----
     ans = drv.ask({"op": "qgrid", "N": N, "M": M, "dx": fl([case["sx"] / u])[0], "dy": fl([case["sy"] / u])[0]})
     ctx.count()
@@ -414,15 +426,17 @@ def run_problem(ctx, drv, case):
         impl[b] = recon(dp, case, bf_mask=submask, b=b).reshape(n, -1)
         ctx.count()
     ref = impl[n]
-    scale_ref = max(maxabs(ref), 1e-30)
+    scale_ref = max(maxabs(ref), floor, 1e-30)
+    if maxabs(ref) < floor:
+        ctx.dist["degenerate:result-is-zero-up-to-rounding"] += 1
     for b in range(1, n):
-        ok, e = close(impl[b], ref, TOL_BATCH * cond)
+        ok, e = close(impl[b], ref, TOL_BATCH * cond, floor)
         ctx.stat_max("batch_invariance_rel_over_cond", e / cond)
         if not ok:
             ctx.pred_fail(f"batch-{kernel}", f"corrected_stack depends on max_batch_size ({b} vs {n})", dict(case, b=b),
                           observed={"rel_diff": e, "b": b, **summarize(impl[b])}, required=summarize(ref))
             break
-    ok, e = close(stack_b1.reshape(n, -1), impl[1], TOL_BATCH * cond)
+    ok, e = close(stack_b1.reshape(n, -1), impl[1], TOL_BATCH * cond, floor)
     ctx.stat_max("repeat_call_rel", e)
     if not ok:
         ctx.pred_fail(f"determinism-{kernel}", "two identical reconstruct calls give different results", case,
@@ -505,7 +519,7 @@ def run_problem(ctx, drv, case):
             continue
         ms = np.array([unfl(row) for row in run["stack"]])
         target = impl[lab] if lab != "perm" else ref
-        ok, e = close(target, ms, TOL_CORR)
+        ok, e = close(target, ms, TOL_CORR, floor)
         ctx.stat_max("reconstruct_rel", e)
         ctx.count()
         if not ok:
@@ -515,14 +529,14 @@ def run_problem(ctx, drv, case):
         if lab == n:
             model_full = ms
             mbf = unfl(run["bf"])
-            if not maxabs(ref.sum(axis=0) - mbf) <= TOL_CORR * n * max(maxabs(ms), 1e-30) + 1e-12:
+            if not maxabs(ref.sum(axis=0) - mbf) <= TOL_CORR * n * max(maxabs(ms), floor, 1e-30) + 1e-12:
                 ctx.disagree("corrected_bf", case, summarize(mbf), summarize(ref.sum(axis=0)), note="sum over the stack")
     if model_full is not None:
         # by `batch_invariant` the model result is the same for every schedule: compare the remaining b's with it
         for b in range(1, n + 1):
             if b in labels:
                 continue
-            ok, e = close(impl[b], model_full, TOL_CORR)
+            ok, e = close(impl[b], model_full, TOL_CORR, floor)
             ctx.stat_max("reconstruct_rel", e)
             ctx.count()
             if not ok:
@@ -546,7 +560,8 @@ def run_problem(ctx, drv, case):
     r2 = recon(make_dp(case, stack2), case, bf_mask=submask, b=gb.randint(1, n)).reshape(n, -1)
     r3 = recon(make_dp(case, stack3), case, bf_mask=submask, b=gb.randint(1, n)).reshape(n, -1)
     want = a * r1 + r2
-    lin_scale = abs(a) * maxabs(r1) + maxabs(r2)
+    dev2 = stack2[sub].astype(np.float64) - stack2[sub].astype(np.float64).mean(axis=(1, 2), keepdims=True)
+    lin_scale = max(abs(a) * maxabs(r1) + maxabs(r2), 1e-3 * (abs(a) * nat + maxabs(dev2) / max(W, 1e-30)))
     err = maxabs(r3 - want) / max(lin_scale, 1e-30)
     ctx.stat_max("linearity_rel", err)
     ctx.count()
@@ -574,7 +589,7 @@ def run_problem(ctx, drv, case):
             bB = recon(dp, case, bf_mask=submask_array(dp, B), b=bB_).reshape(len(B), -1).sum(axis=0)
             bS = ref.sum(axis=0)
             lhs, rhs = WA * bA + WB * bB, WS * bS
-            sc = max(maxabs(rhs), maxabs(WA * bA), maxabs(WB * bB), 1e-30)
+            sc = max(maxabs(rhs), maxabs(WA * bA), maxabs(WB * bB), WS * floor, 1e-30)
             err = maxabs(lhs - rhs) / sc
             ctx.stat_max("recombination_rel", err)
             ctx.count()
